@@ -423,6 +423,119 @@ theorem batch_inputs_unchanged_convert_dir_implicit (T : Tool) (fmt : ResFormat)
 example : WalkEntry "in+dir(1)/".toList ("in+dir(1)/sub".toList, "b.xml".toList) :=
   ⟨"sub".toList, by decide, by decide, by decide⟩
 
+/-! ## 4b. convert_dir run again: each output holds the content of its source *as it is now*
+
+"Each output loads as a current-version document (or parses as RDF) with the content of its
+source" is a statement about the file system after the run, for **every** file system before it:
+the output location may be the one of an earlier run (the explicitly given directory, or
+`<input>_<format>`, which `convert_dir` reuses when it exists) and may hold results of earlier
+runs, of other formats with the same file ending, or unrelated files, older or newer than the
+sources; the sources may have been replaced since.  The model has no time stamps and no memory of
+earlier runs because the code has none; the theorems say that nothing of the kind can matter. -/
+
+/-- For every file system before the run: a completed run leaves at the output path of an entry
+    what `_convert_file` makes **of the bytes the source holds now** (`cdData`, a function of the
+    source path and its bytes only) — whatever the output path held before, provided the source
+    is not itself an output path (distinct output location) and no other entry shares the output
+    path (unique base names). -/
+theorem convert_dir_output_current (T : Tool) (fmt : ResFormat) (mapd : Path → Path)
+    (entries : List (Path × List Char)) (fs : Fs)
+    (hok : (convertDirLoop T fmt mapd entries fs).2 = .ok ())
+    (e : Path × List Char) (he : e ∈ entries)
+    (hin : ∀ e' ∈ entries, cdIn e ≠ cdOut fmt mapd e')
+    (hout : ∀ e' ∈ entries, e' ≠ e → cdOut fmt mapd e' ≠ cdOut fmt mapd e)
+    (d : Bytes) (hd : cdData T fmt (cdIn e) (fs (cdIn e)) = some d) :
+    (convertDirLoop T fmt mapd entries fs).1 (cdOut fmt mapd e) = some d := by
+  induction entries generalizing fs with
+  | nil => cases he
+  | cons e0 rest ih =>
+    obtain ⟨h1, h2⟩ := convertDirLoop_cons_ok T fmt mapd e0 rest fs hok
+    rw [h1]
+    have hsrc : (convertDirStep T fmt mapd e0 fs).1 (cdIn e) = fs (cdIn e) :=
+      convertDirStep_other T fmt mapd e0 fs _ (hin e0 List.mem_cons_self)
+    by_cases hr : e ∈ rest
+    · exact ih _ h2 hr (fun e' he' => hin e' (List.mem_cons_of_mem _ he'))
+        (fun e' he' => hout e' (List.mem_cons_of_mem _ he')) (hsrc ▸ hd)
+    · have hee : e = e0 := by
+        rcases List.mem_cons.mp he with h | h
+        · exact h
+        · exact absurd h hr
+      subst hee
+      rw [convertDirLoop_other T fmt mapd rest _ _
+            (fun e' he' => (hout e' (List.mem_cons_of_mem _ he')
+              (fun h => hr (h ▸ he'))).symm)]
+      exact convertDirStep_out T fmt mapd e fs d hd
+
+/-- In the words of the property, target `odml` / any RDF format: a source that loads and renders
+    to `d` now has `d` at its output path after a completed run, whatever was there. -/
+theorem convert_dir_output_current_render (T : Tool) (fmt : ResFormat) (hf : fmt ≠ .v1_1)
+    (mapd : Path → Path) (entries : List (Path × List Char)) (fs : Fs)
+    (hok : (convertDirLoop T fmt mapd entries fs).2 = .ok ())
+    (e : Path × List Char) (he : e ∈ entries)
+    (hin : ∀ e' ∈ entries, pyJoin e.1 e.2 ≠ outName fmt (pyJoin (mapd e'.1) e'.2))
+    (hout : ∀ e' ∈ entries, e' ≠ e →
+      outName fmt (pyJoin (mapd e'.1) e'.2) ≠ outName fmt (pyJoin (mapd e.1) e.2))
+    (d : Bytes) (hd : T.render (pyJoin e.1 e.2) (fs (pyJoin e.1 e.2)) = .ok d) :
+    (convertDirLoop T fmt mapd entries fs).1 (outName fmt (pyJoin (mapd e.1) e.2)) = some d := by
+  apply convert_dir_output_current T fmt mapd entries fs hok e he hin hout d
+  unfold cdData cdIn
+  cases fmt with
+  | v1_1 => exact absurd rfl hf
+  | odml => simp only [hd]
+  | rdf ext => simp only [hd]
+
+/-- … and target `v1_1`: a source the version converter turns into `d` now. -/
+theorem convert_dir_output_current_v1_1 (T : Tool)
+    (mapd : Path → Path) (entries : List (Path × List Char)) (fs : Fs)
+    (hok : (convertDirLoop T .v1_1 mapd entries fs).2 = .ok ())
+    (e : Path × List Char) (he : e ∈ entries)
+    (hin : ∀ e' ∈ entries, pyJoin e.1 e.2 ≠ outName .v1_1 (pyJoin (mapd e'.1) e'.2))
+    (hout : ∀ e' ∈ entries, e' ≠ e →
+      outName .v1_1 (pyJoin (mapd e'.1) e'.2) ≠ outName .v1_1 (pyJoin (mapd e.1) e.2))
+    (d : Bytes) (hd : T.convert (pyJoin e.1 e.2) (fs (pyJoin e.1 e.2)) = .ok (some d)) :
+    (convertDirLoop T .v1_1 mapd entries fs).1 (outName .v1_1 (pyJoin (mapd e.1) e.2)) = some d := by
+  apply convert_dir_output_current T .v1_1 mapd entries fs hok e he hin hout d
+  unfold cdData cdIn
+  simp only [hd]
+
+/-- The history of the seeded scenario, for any tool, format, directory and first run: after a
+    first run (`entries1` over any `fs0`), the source of `e` is **replaced by another revision**
+    `rev` (whatever time stamp it carries — the model has none), and the directory is converted
+    again into the same location: the output of `e` holds the conversion of `rev`, not the result
+    of the first run. -/
+theorem convert_dir_rerun_after_edit (T : Tool) (fmt : ResFormat) (mapd : Path → Path)
+    (entries1 entries2 : List (Path × List Char)) (fs0 : Fs)
+    (e : Path × List Char) (he : e ∈ entries2) (rev : Bytes)
+    (hin : ∀ e' ∈ entries2, cdIn e ≠ cdOut fmt mapd e')
+    (hout : ∀ e' ∈ entries2, e' ≠ e → cdOut fmt mapd e' ≠ cdOut fmt mapd e)
+    (d : Bytes) (hd : cdData T fmt (cdIn e) (some rev) = some d) :
+    let fs1 := ((convertDirLoop T fmt mapd entries1 fs0).1).write (cdIn e) rev
+    (convertDirLoop T fmt mapd entries2 fs1).2 = .ok () →
+    (convertDirLoop T fmt mapd entries2 fs1).1 (cdOut fmt mapd e) = some d := by
+  intro fs1 hok
+  apply convert_dir_output_current T fmt mapd entries2 fs1 hok e he hin hout d
+  have : fs1 (cdIn e) = some rev := write_same _ _ _
+  rw [this]; exact hd
+
+/-- A concrete history: `in/a.xml` converted, replaced by another revision, converted again into
+    the same directory, which also holds an unrelated `b.odml`; a file added later gets its output
+    too. -/
+theorem convert_dir_rerun_witness :
+    let T : Tool := { loads := fun _ _ => true, convert := fun _ _ => .error .valueError,
+                      render := fun _ c => if c == some "REV1".toList then .ok "OUT1".toList
+                                           else if c == some "REV2".toList then .ok "OUT2".toList
+                                           else .error .valueError }
+    let mapd := mapDir "in/".toList "out/".toList
+    let fs0 := Fs.ofList [("in/a.xml".toList, "REV1".toList), ("out/b.odml".toList, "KEEP".toList)]
+    let r1 := convertDirLoop T .odml mapd [("in/".toList, "a.xml".toList)] fs0
+    let fs1 := (r1.1.write "in/a.xml".toList "REV2".toList).write "in/c.xml".toList "REV1".toList
+    let r2 := convertDirLoop T .odml mapd [("in/".toList, "a.xml".toList), ("in/".toList, "c.xml".toList)] fs1
+    r1.2.isOk = true ∧ r1.1 "out/a.odml".toList = some "OUT1".toList ∧
+    r2.2.isOk = true ∧ r2.1 "out/a.odml".toList = some "OUT2".toList ∧
+    r2.1 "out/c.odml".toList = some "OUT1".toList ∧ r2.1 "out/b.odml".toList = some "KEEP".toList ∧
+    r2.1 "in/a.xml".toList = some "REV2".toList := by
+  decide
+
 /-! ## 5. The mapping before the fix -/
 
 /-- Whenever the old `re.sub(input_dir, output_dir, dir_path)` returned `dir_path` unchanged
